@@ -90,7 +90,7 @@ def call_json(rng, key):
     return '{"%s":%s%s,%s"name":%s"%s"}' % (key, sp, rng.choice(ARGS), sp, sp, rng.choice(NAMES))
 
 
-TOOL_TEXT_CLASSES = ["one", "pre", "post", "two", "two", "three", "array", "nested", "nomatch", "none", "trunc", "wrongkey", "prepost"]
+TOOL_TEXT_CLASSES = ["one", "pre", "post", "two", "two", "three", "array", "nested", "nomatch", "none", "trunc", "wrongkey", "prepost", "dup2", "dup3", "dupmix", "dupmix"]
 
 
 def tool_text(rng, model):
@@ -112,6 +112,10 @@ def tool_text(rng, model):
         parts = [c(), rng.choice(SEPS), c()]
     elif k == "three":
         parts = [c(), rng.choice(SEPS), c(), rng.choice(SEPS), c()]
+    elif k in ("dup2", "dup3", "dupmix"):
+        # the same call (same name, same arguments, same spelling) more than once, possibly with another call in between
+        a, b, sep = c(), c(), rng.choice(["\n", " ", "", "; "])
+        parts = {"dup2": [a, sep, a], "dup3": [a, sep, a, sep, a], "dupmix": [a, sep, b, sep, a]}[k]
     elif k == "array":
         parts = ["[", c(), ",", c(), "]"]
     elif k == "nested":
@@ -245,6 +249,84 @@ def cut_cases(rng, n):
         m = 0 if k == len(lines) else rng.choice([0, 0, -1, -1, rng.randint(1, lines[k]["len"] - 1)])
         out.append({"op": "client", "status": rng.choice([200, 200, 200, 200, 500]), "lines": lines,
                     "cut": {"lines": k, "extra": m, "framing": rng.choice(["chunked", "chunked", "length"])}, "klass": "client-cut/random"})
+    return out
+
+
+def llm_cases(rng, n):
+    """the real llm client (llmServer.Completion) against a scripted runner: how the runner's body ends"""
+    out = []
+    C = lambda t: {"kind": "content", "content": hx(t)}
+
+    def D(content=""):
+        return {"kind": "done", "content": hx(content), "reason": rng.choice([0, 0, 1]), "pc": rng.randint(1, 40), "ec": rng.randint(1, 300)}
+
+    def contents():
+        return [C(rng.choice(WORDS)) for _ in range(rng.randint(0, 4))]
+
+    def mk(cls, lines, send, extra, ending, status=200, e2e="", stream=True):
+        out.append({"op": "llm", "cls": cls, "lines": lines, "send": send, "extra": extra, "ending": ending, "status": status, "e2e": e2e, "stream": stream,
+                    "klass": "llm/%s%s" % (cls, "/e2e-" + e2e + ("-stream" if stream else "-nonstream") if e2e else "")})
+
+    def one(cls, e2e="", stream=True):
+        cs = contents()
+        if cls == "done-eof":
+            mk(cls, cs + [D()], len(cs) + 1, 0, "clean", e2e=e2e, stream=stream)
+        elif cls == "done-cut":
+            mk(cls, cs + [D()], len(cs) + 1, 0, "cut", e2e=e2e, stream=stream)
+        elif cls == "done-nonewline":
+            mk(cls, cs + [D()], len(cs), -1, rng.choice(["cut", "clean"]), e2e=e2e, stream=stream)
+        elif cls == "done-extra":
+            extra = rng.choice([[C("x")], [D()], [C("x"), D()], [C("x"), C("y")], [{"kind": "garbage"}]])
+            mk(cls, cs + [D()] + extra, len(cs) + 1 + len(extra), 0, rng.choice(["clean", "cut"]), e2e=e2e, stream=stream)
+        elif cls == "cut":
+            lines = cs + [C("z"), D()]
+            mk(cls, lines, rng.randint(0, len(lines) - 1), 0, "cut", e2e=e2e, stream=stream)
+        elif cls == "cutmid":
+            lines = cs + [C("zzzz"), D()]
+            k = rng.randint(0, len(lines) - 1)
+            mk(cls, lines, k, rng.choice([1, 5, 12]) if k == len(lines) - 1 else rng.choice([1, 5, 12, -1]), "cut", e2e=e2e, stream=stream)
+        elif cls == "eof-nodone":
+            mk(cls, cs + [C("z")], len(cs) + 1, 0, "clean", e2e=e2e, stream=stream)
+        elif cls == "repeat":
+            mk(cls, cs + [C(" a")] * rng.choice([32, 33, 40]) + [D()], len(cs) + 41, 0, "clean", e2e=e2e, stream=stream)
+        elif cls == "status":
+            mk(cls, cs + [D()], 0, 0, "clean", status=rng.choice([500, 503, 400]), e2e=e2e, stream=stream)
+        elif cls == "garbage":
+            lines = cs + [{"kind": "garbage"}, C("z"), D()]
+            mk(cls, lines, len(lines), 0, "clean", e2e=e2e, stream=stream)
+        elif cls == "blank":
+            lines = cs + [{"kind": "blank"}, C("z"), {"kind": "blank"}, D()]
+            mk(cls, lines, len(lines), 0, "clean", e2e=e2e, stream=stream)
+    classes = ["done-eof", "done-cut", "done-nonewline", "done-extra", "cut", "cutmid", "eof-nodone", "repeat", "status", "garbage", "blank"]
+    for cls in classes:
+        one(cls)
+        one(cls, rng.choice(["generate", "chat"]), True)
+    for cls in ("done-cut", "done-extra", "cut"):
+        one(cls, rng.choice(["generate", "chat"]), False)
+    for _ in range(n):
+        cls = rng.choice(classes + ["done-cut", "done-extra", "done-extra", "cut"])
+        if rng.random() < 0.4:
+            one(cls, rng.choice(["generate", "chat"]), rng.random() < 0.7)
+        else:
+            one(cls)
+    return out
+
+
+def offcontract_cases(rng, n):
+    """mock runners that break Completion's contract after the final response (more callbacks, an error return): only to tie
+    the handler model on arbitrary callback traces (C17_terminal_count); the property is not evaluated on them"""
+    out = []
+    for _ in range(n):
+        kind = rng.choice(["generate", "chat"])
+        text = rnd_text(rng, rng.randint(0, 4))
+        after = [rng.choice([{"done": False, "content": hx("x")}, {"done": True, "content": "", "reason": 1, "pc": 9, "ec": 8}]) for _ in range(rng.randint(0, 2))]
+        end = gen_end(rng, "done")
+        end["reason"] = rng.choice([0, 1])
+        end["after"] = after
+        end["after_err"] = hx(rng.choice(["", "unexpected EOF", "boom"])) if after else hx("unexpected EOF")
+        out.append({"op": "run", "kind": kind, "model": "plain", "tools": False, "format": "", "raw": kind == "generate" and rng.random() < 0.5, "stop": False,
+                    "tokfail": False, "prompt": hx("hi"), "text": text, "splits": [[hx(p) for p in s] for s in gen_splits(rng, text, 2, False)], "end": end,
+                    "modes": ["st", "ns"], "offcontract": True, "klass": "offcontract/" + kind})
     return out
 
 
@@ -432,6 +514,25 @@ def parser_additive(oracle, model, chunks):
     return True, None
 
 
+def simulate_keep_leftover(oracle, model, chunks):
+    """the streaming callback of ChatHandler with ONE change: when the parser succeeds on the buffer, only the shortest
+    prefix of the buffer that already gives these calls is dropped, the rest stays in the buffer (the handler clears it all).
+    Used only to classify a stream/non-stream difference: if this variant agrees with the non-streamed response, the
+    difference is the known buffer-reset loss (C17-tools-split-dependent); otherwise it is something else."""
+    sb, calls = b"", []
+    for c in list(chunks) + [b""]:
+        sb += c
+        r = oracle.ask(model, [sb])[sb]
+        if r is not None:
+            calls += r
+            prefs = [sb[:k] for k in range(1, len(sb) + 1)]
+            ans = oracle.ask(model, prefs)
+            k = min(k for k in range(1, len(sb) + 1) if ans[sb[:k]] == r)
+            sb = sb[k:]
+    whole = b"".join(chunks)
+    return (whole.hex() if not calls else ""), calls
+
+
 def monitor_case(c, obs, oracle, viol):
     """the property on the implementation's observations of one case; viol(sig, what, detail)"""
     endk = c["end"]["kind"]
@@ -486,6 +587,10 @@ def monitor_case(c, obs, oracle, viol):
                     add, wit = parser_additive(oracle, c["model"], chunks)
                     sig["parser_additive"] = add
                     detail["parser_additivity_witness"] = wit
+                    sim = simulate_keep_leftover(oracle, c["model"], chunks)
+                    same = rn[0] == "ok" and rs[0] == "ok" and (sim[0], sim[1]) == (rn[1], rn[2])
+                    sig["cause"] = "buffer-reset-loses-partial-call" if same else "other"
+                    detail["stream_keeping_the_unparsed_rest_of_the_buffer"] = {"text": sim[0], "calls": sim[1]}
                 viol(sig, "streamed and non-streamed /api/%s responses differ in %s for the same output" % (c["kind"], sig["field"]), detail)
         for mode in ("v1st", "v1stu", "v1ns"):
             r = byrun.get((si, mode))
@@ -516,6 +621,36 @@ def monitor_case(c, obs, oracle, viol):
             viol(dict(base, **{"class": "request-differs"}), "the runner received different requests in different modes", {"split": si, "reqs": reqs})
 
 
+def monitor_llm(c, o, viol):
+    """Completion's contract on the real llm client: final response XOR error return, nothing after the final response;
+    and, end to end, the API stream built from it has exactly one terminal record"""
+    ev = o["events"]
+    ndone = sum(1 for e in ev if e["done"])
+    n = ndone + (1 if o["haserr"] else 0)
+    last_ok = ndone == 0 or ev[-1]["done"]
+    end = "silent" if c["cls"] in ("eof-nodone", "repeat") else c["cls"]
+    if n != 1 or not last_ok:
+        viol({"class": "terminal", "view": "llm-completion", "end": end, "count": min(n, 2)},
+             "llmServer.Completion (real llm client, runner script %s): %d final responses, %s%s" % (
+                 c["cls"], ndone, "error %r" % o["err"] if o["haserr"] else "nil", "" if last_ok else ", callbacks after the final response"),
+             {"case": c, "impl": o})
+    run = o.get("run")
+    if run:
+        if run["mode"] == "st":
+            k, last = terminals(run)
+            ok = k == 1 and last
+        else:
+            r = native_result(run)
+            k = 1 if r[0] in ("ok", "fail") else 0
+            ok = k == 1 and not (r[0] == "ok" and o["haserr"])   # a 200 answer although the runner reported a fault is fine; the reverse is checked below
+            if r[0] == "fail" and ndone and not o["haserr"]:
+                ok = False
+        if not ok:
+            viol({"class": "terminal", "view": "e2e-" + run["mode"], "end": end, "count": min(k, 2)},
+                 "/api/%s (%s) over the real llm client, runner script %s: %d terminal records" % (c["e2e"], run["mode"], c["cls"], k),
+                 {"case": c, "impl": o})
+
+
 def monitor_client(c, o, viol):
     lines = c["lines"]
     term = [l["kind"] in ("done", "error") for l in lines]
@@ -534,7 +669,8 @@ def monitor_client(c, o, viol):
         if complete and lines[-1]["kind"] == "done" and lines[-1]["len"] < MAXBUF:
             # only the newline / the end-of-body marker was lost: the final message must have been delivered
             # (the client additionally reports the transport error; see C17_client_transport_fault)
-            if ndone != 1:
+            # (or an error and no final message, e.g. an earlier line was too long for the scanner)
+            if ndone > 1 or n == 0:
                 viol(sig, what, {"case": c, "impl": o})
             return
     if n != 1:
@@ -683,6 +819,43 @@ def render_split(c, obs, si, oracle):
     return pre, out
 
 
+def cq_trace(events, err_hex):
+    evs = []
+    for e in events:
+        if e["done"]:
+            evs.append("(CFinal %s %s %s)" % (cb(e["content"]), REASONS.get(e["reason"], "RClosed"), cq_counts(e["pc"], e.get("pd", 7), e["ec"], e.get("ed", 9))))
+        else:
+            evs.append("(CChunk %s)" % cb(e["content"]))
+    return "(mkTrace %s %s)" % (cq_list(evs, "cev"), cq_ostr(err_hex))
+
+
+def render_trace(kind, raw, prompt_hex, trace, run):
+    """one observed response against the handler model applied to a callback trace"""
+    if run["mode"] == "st":
+        x = cq_recs(run["recs"], cq_nrec, "nrec")
+        if x is None:
+            return "false"
+        if kind == "generate":
+            return "chk_gen_trace (mkG %s false %s) %s %s" % (cq_bool(raw), cb(prompt_hex), trace, x)
+        return "chk_chat_trace (@nil (str * option (list (str * str)))) false %s %s" % (trace, x)
+    x = cq_nrec(run["recs"][0]) if len(run["recs"]) == 1 else None
+    if x is None:
+        return "false"
+    h = "(Http %s %s)" % (cq_Z(run["status"]), x)
+    if kind == "generate":
+        return "chk_gen_trace_ns (mkG %s false %s) %s %s" % (cq_bool(raw), cb(prompt_hex), trace, h)
+    return "chk_chat_trace_ns (@nil (str * option (list (str * str)))) false %s %s" % (trace, h)
+
+
+def mock_trace(c, si):
+    end = c["end"]
+    ev = [{"done": False, "content": x} for x in c["splits"][si]]
+    ev.append({"done": True, "content": end["content"], "reason": end["reason"], "pc": end["pc"], "ec": end["ec"]})
+    for a in end.get("after", []):
+        ev.append(dict(a, content=a.get("content", "")))
+    return cq_trace(ev, end.get("after_err") or None)
+
+
 def item_of(pre, terms):
     """one closed bool for a whole split: every mode agrees with the model"""
     if any(t is None for _, t in terms):
@@ -789,7 +962,11 @@ def run(ctx):
                 "(native stream/non-stream, api.Client stream/non-stream, /v1 stream, /v1 stream+usage, /v1 non-stream; /v1 tool_calls deltas are merged by index before "
                 "comparing); with tools one split puts every call and every separator in a chunk of its own; client cases: scripted response lines with lengths "
                 "around the 512000 byte scanner buffer, and transport faults (connection closed after k complete lines, inside a line, before its newline, "
-                "before the end-of-body marker; chunked and Content-Length framing; every cut point of three fixed streams + random). non-trivial = at least two chunks and the runner script reached the handler; distinct = canonical JSON of the case"
+                "before the end-of-body marker; chunked and Content-Length framing; every cut point of three fixed streams + random); tool outputs also repeat an identical "
+                "call 2-3 times with other calls in between, each call in a chunk of its own and all in one chunk; llm cases: the REAL llmServer.Completion against a scripted "
+                "runner HTTP server (done then clean end / connection cut / missing newline / extra lines after done; cut before done at and inside a line; clean end without done; "
+                "33+ identical tokens; error status; undecodable and blank lines), alone and under the real handlers (/api/generate, /api/chat, stream and non-stream); "
+                "off-contract mock runners (callbacks or an error after the final response) for the correspondence only. non-trivial = at least two chunks and the runner script reached the handler; distinct = canonical JSON of the case"
                 % (3 if quick else 6))
     ctx.trusted = ["Coq 8.16.1 kernel + vm_compute", "hand-written model coq/Stream/Model.v tied to the code by this differential run only",
                    "encoding/json, net/http, gin, bufio.Scanner (records are compared after decoding; the scanner's buffer rule is modelled as len+1 <= max)",
@@ -797,6 +974,8 @@ def run(ctx):
                    "python generator and monitor (props/c17.py)"]
     ctx.assumptions = ["every runner chunk is valid UTF-8 (property C14); splits are made at character boundaries",
                        "the final runner response carries no content when tools are requested (llm/server.go Completion sends content and the final response separately)",
+                       "Completion's contract (final response XOR error return, nothing after the final response) is the hypothesis of C17_exactly_one_terminal_under_contract; "
+                       "it is tested on the real llmServer.Completion against a scripted runner on every run (C17_terminal_count: the handlers emit one terminal record per final response and per error return)",
                        "tool-call parser: Section variable; equivalence with tools is proved for parsers that are additive over concatenation, "
                        "the real parseToolCalls is tested for additivity on every split where the modes disagree",
                        "wall-clock fields (created_at, total_duration, load_duration), ids and the tool call index (a stream position) are not compared between modes"]
@@ -818,13 +997,14 @@ def run(ctx):
 
 EXH_TEXTS = [("tools", '{"name":"a","arguments":{}}{"name":"b","arguments":{"x":1}}'),
              ("tools", 'ok {"name":"a","arguments":{"s":"}{"}} then\n{"name":"b","arguments":{}} é'),
-             ("tools2", '[{"name":"a","parameters":{}},{"name":"b","parameters":{}}]')]
+             ("tools2", '[{"name":"a","parameters":{}},{"name":"b","parameters":{}}]'),
+             ("tools", '{"name":"a","arguments":{"x":1}}\n{"name":"a","arguments":{"x":1}}')]
 
 
 def exhaustive_cases(quick):
     """every split of a few two-call texts with one cut (quick) / with one or two cuts (thorough)"""
     out = []
-    for model, text in EXH_TEXTS[: 1 if quick else 3]:
+    for model, text in ([EXH_TEXTS[0], EXH_TEXTS[3]] if quick else EXH_TEXTS):
         n = len(text)
         cutsets = [[i] for i in range(1, n)]
         if not quick:
@@ -856,19 +1036,35 @@ def _run(ctx, h, only_cases=None):
         cases = only_cases
     else:
         cases = corpus_cases() + big_cases() + exhaustive_cases(quick)
-        cases += [gen_case(rng, nsplits) for _ in range(380 if quick else 2500)]
+        cases += [gen_case(rng, nsplits) for _ in range(240 if quick else 2500)]
         cases += gen_client_cases(rng, 60 if quick else 1000)
         cases += cut_cases(rng, 40 if quick else 1500)
+        cases += llm_cases(rng, 30 if quick else 800)
+        cases += offcontract_cases(rng, 20 if quick else 300)
     viols = []
     items, meta = [], []
     ctx.log("%d cases generated" % len(cases))
     for ci, c in enumerate(cases):
-        send = {k: v for k, v in c.items() if k not in ("klass", "text")}
+        send = {k: v for k, v in c.items() if k not in ("klass", "text", "cls", "offcontract")}
         o = h.ask(send)
         if "panic" in o or "harness_error" in o:
             ctx.violation({"class": "harness-panic"}, "harness panicked: %s" % o, {"case": c, "impl": o})
             continue
         canon = {k: v for k, v in c.items() if k != "klass"}
+        if c["op"] == "llm":
+            ctx.note_case(canon, True, c["klass"], sample={"case": c, "impl": {k: v for k, v in o.items() if k != "run"}})
+            monitor_llm(c, o, lambda sig, what, detail, c=c: viols.append((c, sig, what, detail)))
+            if o.get("run"):
+                tr = cq_trace(o["events"], o["err"].encode().hex() if o["haserr"] else None)
+                items.append("(" + render_trace(c["e2e"], False, o["prompt"], tr, o["run"]) + ")")
+                meta.append((ci, None, None))
+            continue
+        if c.get("offcontract"):
+            ctx.note_case(canon, True, c["klass"], sample={"case": c})
+            for r in o["runs"]:
+                items.append("(" + render_trace(c["kind"], c["raw"], r["req"]["prompt"], mock_trace(c, r["split"]), r) + ")")
+                meta.append((ci, None, None))
+            continue
         if c["op"] == "client":
             ctx.note_case(canon, len(c["lines"]) >= 2, c["klass"], sample={"case": c, "impl": o})
             monitor_client(c, o, lambda sig, what, detail, c=c: viols.append((c, sig, what, detail)))
@@ -894,7 +1090,7 @@ def _run(ctx, h, only_cases=None):
             continue
         seen.add(key)
         rep = {"case": c, "detail": detail}
-        if c["op"] == "run" and not vlib.match_known(ctx.known, sig) and len(seen) <= 6:
+        if c["op"] == "run" and not c.get("offcontract") and not vlib.match_known(ctx.known, sig) and len(seen) <= 6:
             small = shrink_run_case(h, oracle, c, sig["class"])
             rep["shrunk_case"] = small
             rep["shrunk_chunks"] = [[uh(x).decode(errors="replace") for x in s] for s in small["splits"] if all(isinstance(x, str) for x in s)]
@@ -916,7 +1112,7 @@ def _run(ctx, h, only_cases=None):
         ci, si, pt = meta[i]
         if pt is None:
             singles.append(items[i])
-            smeta.append((ci, si, "client-lines"))
+            smeta.append((ci, si, "single"))
             continue
         for mode, term in pt[1]:
             singles.append("false" if term is None else "(" + pt[0] + term + ")")
